@@ -225,9 +225,10 @@ fn only_separator_is_odd(s: &str) -> bool {
 }
 
 fn is_canonical_ts(s: &str) -> bool {
-    // upper-case T, 'Z' or ±hh:mm (not -00:00), no leap second
+    // separator 'T', 't' or ' ' (all three are RFC 3339, and the quantifier of C11/C12 names 'T' and ' '),
+    // 'Z' or ±hh:mm (not -00:00), no leap second
     let b = s.as_bytes();
-    if b.len() < 20 || b[10] != b'T' {
+    if b.len() < 20 || !(b[10] == b'T' || b[10] == b't' || b[10] == b' ') {
         return false;
     }
     if &s[17..19] == "60" {
